@@ -46,6 +46,52 @@ SCOPES = {
               "objs": ["req", "obj"]},
 }
 HDRS = ["ha", "hb", "hc"]
+
+
+def load_writable():
+    """(plain, odd): scope -> [(name, type)].
+    plain: the ctx variables the scope's Set method (interpreter/variable/<scope>.go, falling back to all.go) assigns
+    straight into one context field AND whose Get returns that same field - cells in the sense of the model.
+    odd: assigned into a field that the scope's Get does not return (the value read is computed or simulated):
+    writing them can be observed by nobody, so they are kept out of the programs and listed in the evidence.
+    Read from coq/Gen/StoreWritable.v (translator; distinct names are distinct cells by
+    C13_writable_cells_distinct).  None if the table is not there (the C13 check reports that)."""
+    import os
+    import re
+    path = os.path.join(os.path.dirname(os.path.dirname(os.path.abspath(__file__))), "coq", "Gen", "StoreWritable.v")
+    try:
+        txt = open(path).read()
+    except OSError:
+        return None
+    if "Definition writable" not in txt or "Definition readable" not in txt:
+        return None
+
+    def table(defn):
+        body = txt[txt.index("Definition " + defn):]
+        body = body[:body.index("\n].") + 3]
+        return {m.group(1): re.findall(r'\("([^"]+)", \("([^"]*)", "([A-Z])"\)\)', m.group(2))
+                for m in re.finditer(r'  \("([a-z]+)", \[(.*?)\]\)', body, re.S)}
+    wt, rt = table("writable"), table("readable")
+    plain, odd = {}, {}
+    for sc in wt:
+        if sc == "all":
+            continue
+        own = {n: (f, t) for n, f, t in wt[sc]}
+        for n, f, t in wt["all"]:
+            own.setdefault(n, (f, t))
+        rown = {n: f for n, f, _ in rt.get(sc, [])}
+        rall = {n: f for n, f, _ in rt.get("all", [])}
+        plain[sc], odd[sc] = [], []
+        for n, (f, t) in sorted(own.items()):
+            if not f:
+                continue
+            g = rown[n] if n in rown else rall.get(n, "")
+            (plain if g == f else odd)[sc].append((n, t))
+    return plain, odd
+
+
+_W = load_writable()
+WRITABLE, WRITE_ONLY = _W if _W is not None else (None, None)
 NGROUPS = 4
 BUILTINS = {0: ("std.strlen", ["S"], "I"), 1: ("std.toupper", ["S"], "S"), 2: ("std.tolower", ["S"], "S")}
 FLOATS = [("1.500", 1.5), ("0.250", 0.25), ("3.000", 3.0), ("10.125", 10.125), ("0.000", 0.0)]
@@ -906,6 +952,12 @@ class StoreGen:
         p.wild = self.wild
         p.scope = r.choice(sorted(SCOPES))
         p.globals = list(SCOPES[p.scope]["globals"])
+        if WRITABLE is not None and WRITABLE.get(p.scope):
+            # drawn from the source's own table: any writable ctx variable of a modelled type, a few per program
+            cand = [(n, t) for n, t in WRITABLE[p.scope] if t in CORE]
+            if cand and r.random() < 0.8:
+                p.globals = sorted(r.sample(cand, min(len(cand), r.randint(3, 6))))
+                self._c("dim:ctx-cells-from-source")
         names = [n for n, _ in p.globals]
         # in the ERROR scope obj.response IS ctx.ObjectResponse: one cell must not get two pool names
         p.hidden = [h for h in HIDDEN if h[0][1:] not in names]
